@@ -71,6 +71,11 @@ pub fn strategy(opts: &SrcOpts) -> BoxedStrategy<Choice> {
     .boxed()
 }
 
+pub fn cut_free_pub(src: &str, n: &TsNode, picks: &[(Index, u8)]) -> String {
+  let v: Vec<HolePick> = picks.iter().map(|(node, form)| HolePick { node: *node, form: *form }).collect();
+  cut_free(src, n, &v)
+}
+
 /// free-form pattern: text of `n` with up to 3 descendants (named or not) replaced by sigils
 fn cut_free(src: &str, n: &TsNode, picks: &[HolePick]) -> String {
   let mut desc: Vec<TsNode> = tsutil::preorder(n.clone())
